@@ -16,6 +16,8 @@ import sys
 from .. import corpus, determined, gen, minimise, ops, paths, proc
 from ..seams import SIM
 
+# relative tolerance for floating-point cells (VERIF_FLOAT_TOL overrides; 0 = bit-exact)
+FLOAT_TOL = float(__import__("os").environ.get("VERIF_FLOAT_TOL", "0"))
 BUDGET = {"quick": 150.0, "thorough": 3300.0}
 
 
@@ -217,7 +219,7 @@ def judge(ref, res, variants):
         stats["ok"] += 1
         if var.get("env") or r["permuted"]:
             stats["nontrivial"] += 1
-        d = ops.diff_outcomes(ref, oc, tol=1e-9)
+        d = ops.diff_outcomes(ref, oc, tol=FLOAT_TOL)
         if d:
             knobs = sorted((var.get("env") or {}).keys()) + (["storage-order"] if var.get("permute") else [])
             viols.append((i, d, knobs))
@@ -259,7 +261,7 @@ def task_batch(task):
         for (i, d, knobs) in viols:
             # attribute: the variant alone in a pristine process
             alone = proc.in_child(_sequence_child, op, [variants[i]], timeout=600)[0]["outcome"]
-            da = ops.diff_outcomes(ref, alone, tol=1e-9) if alone[0] == "ok" else None
+            da = ops.diff_outcomes(ref, alone, tol=FLOAT_TOL) if alone[0] == "ok" else None
             if da:
                 recs.append({"invariant": "result-depends-on-configuration", "observed": "knobs %s: %s" % (variants[i], da),
                              "signature": {"knobs": knobs}, "variants": [variants[i]]})
@@ -423,7 +425,7 @@ def run(ctx):
             "assumptions": [
                 "NOT claimed: schedules of DuckDB's own worker threads; VTL_THREADS>1 is used only with inputs that fit one morsel, large inputs only with VTL_THREADS=1",
                 "ordering inside one SQL statement is DuckDB's own and is not controlled",
-                "float (DOUBLE) results compared with relative tolerance 1e-9",
+                "floating-point cells are compared bit-exactly (VERIF_FLOAT_TOL=0): the engine stores Number as DECIMAL and was bit-reproducible on every workload tried; set VERIF_FLOAT_TOL to relax",
             ]}
 
 
